@@ -20,6 +20,52 @@ fn stage_rank(s: &Stage) -> u8 {
     }
 }
 
+/// Known-finding shape (excluded by construction once confirmed on its stored input): a cycle
+/// among type declarations that goes through a circuit gate type sends the circuit parsing code
+/// into unbounded recursion (stack overflow).
+pub fn has_gate_cycle(p: &Program) -> bool {
+    use cairo_lang_sierra::program::GenericArg;
+    let n = p.type_declarations.len();
+    let idx_of = |id: &cairo_lang_sierra::ids::ConcreteTypeId| p.type_declarations.iter().position(|d| d.id == *id);
+    let is_gate = |i: usize| {
+        let g = p.type_declarations[i].long_id.generic_id.0.as_str();
+        g.ends_with("Gate") || g == "Circuit" || g == "CircuitInput"
+    };
+    // DFS colouring.
+    let mut color = vec![0u8; n];
+    fn dfs(i: usize, p: &Program, color: &mut Vec<u8>, idx_of: &dyn Fn(&cairo_lang_sierra::ids::ConcreteTypeId) -> Option<usize>, stack: &mut Vec<usize>, is_gate: &dyn Fn(usize) -> bool) -> bool {
+        color[i] = 1;
+        stack.push(i);
+        for a in &p.type_declarations[i].long_id.generic_args {
+            if let GenericArg::Type(t) = a {
+                if let Some(j) = idx_of(t) {
+                    if color[j] == 1 {
+                        // Cycle: the part of the stack from j on.
+                        let pos = stack.iter().position(|x| *x == j).unwrap_or(0);
+                        if stack[pos..].iter().any(|x| is_gate(*x)) {
+                            return true;
+                        }
+                    } else if color[j] == 0 && dfs(j, p, color, idx_of, stack, is_gate) {
+                        return true;
+                    }
+                }
+            }
+        }
+        stack.pop();
+        color[i] = 2;
+        false
+    }
+    for i in 0..n {
+        if color[i] == 0 {
+            let mut stack = vec![];
+            if dfs(i, p, &mut color, &idx_of, &mut stack, &is_gate) {
+                return true;
+            }
+        }
+    }
+    false
+}
+
 pub fn artefact(item: &SierraItem, muts: &[Mut]) -> Value {
     json!({"origin": item.origin, "sierra": item.text, "mutations": muts.iter().map(sierramut::to_json).collect::<Vec<_>>()})
 }
@@ -72,6 +118,12 @@ impl Prop for C14 {
     fn crash_type(&self) -> bool {
         true
     }
+    fn crash_signature(&self, artefact: &Value, why: &str) -> String {
+        match rebuild(artefact) {
+            Some(p) if has_gate_cycle(&p) => "crash:circuit-gate-type-cycle".to_string(),
+            _ => format!("crash:{why}"),
+        }
+    }
     fn rule(&self) -> String {
         "Programs: every `.sierra` file and e2e `sierra_code` section of the repository that parses (<= 400 \
          statements in quick). (1) Single-point mutations enumerated per program (statement delete / duplicate / \
@@ -95,13 +147,13 @@ impl Prop for C14 {
     }
     fn worker(&self, ctx: &mut WorkerCtx) {
         let tier = ctx.tier;
-        let corpus = sierra::load_corpus(tier.pick(120, 3000));
+        let corpus = sierra::load_corpus(tier.pick(400, 3000));
         if corpus.is_empty() {
             ctx.inconclusive("no Sierra corpus");
             return;
         }
         let n_shards = ctx.n_shards;
-        let thin = tier.pick(5usize, 1);
+        let thin = tier.pick(3usize, 1);
         // Part 1: enumeration (shard = slice of the global mutant index space).
         let shards = ctx.shards.clone();
         let announce_every = 1u64;
@@ -124,6 +176,10 @@ impl Prop for C14 {
                 let _ = announce_every;
                 ctx.start_case(shard, idx, || artefact(item, &[m.clone()]));
                 let q = sierramut::apply(&item.program, &m);
+                if has_gate_cycle(&q) {
+                    ctx.stats.count("excluded:circuit-gate-type-cycle(known finding)");
+                    continue;
+                }
                 let small = q.statements.len() <= 60;
                 match judge(&q, small) {
                     Ok((rank, acc, r)) => {
@@ -161,6 +217,10 @@ impl Prop for C14 {
                 let m = sierramut::random(ch, &p);
                 p = sierramut::apply(&p, &m);
                 muts.push(m);
+            }
+            if has_gate_cycle(&p) {
+                cc.stats().count("excluded:circuit-gate-type-cycle(known finding)");
+                return Verdict::Skip("known finding shape");
             }
             cc.start(|| artefact(item, &muts));
             match judge(&p, p.statements.len() <= 60) {
